@@ -32,23 +32,28 @@ Fixpoint act_spec (nmodes : nat) (acts : list (Z * Z)) (m : nat) (st : list nat)
     else act_spec nmodes rest m st
   end.
 
-Definition sm_out (tok s : Z) (o : aout) : ares :=
+Definition sm_out (tok s : Z) (cn ac : bool) (o : aout) : ares :=
   match o with
   | OCrash => ACrash
-  | OPopErr m st => AReturn lexError {| sm_token := tok; sm_state := s; sm_mode := m; sm_stack := st |}
+  | OPopErr m st =>
+    AReturn lexError {| sm_token := tok; sm_state := s; sm_consumed := cn; sm_accum := ac;
+                        sm_mode := m; sm_stack := st |}
   | OTerm c tk m st =>
     AReturn c {| sm_token := match tk with Some p => p | None => tok end;
-                 sm_state := 0; sm_mode := m; sm_stack := st |}
-  | OFall m st => AFall {| sm_token := tok; sm_state := s; sm_mode := m; sm_stack := st |}
+                 sm_state := 0; sm_consumed := false; sm_accum := (c =? lexTryAgain);
+                 sm_mode := m; sm_stack := st |}
+  | OFall m st => AFall {| sm_token := tok; sm_state := s; sm_consumed := cn; sm_accum := ac;
+                           sm_mode := m; sm_stack := st |}
   end.
 
-Definition g_out (S : Type) (start : nat -> S) (tok : Z) (s : S) (f : bool) (o : aout) : gares S :=
+Definition g_out (S : Type) (start : nat -> S) (tok : Z) (s : S) (f ac : bool) (o : aout) : gares S :=
   match o with
   | OCrash => GCrash S
-  | OPopErr m st => GReturn S lexError (Build_gsm S tok s f m st)
+  | OPopErr m st => GReturn S lexError (Build_gsm S tok s f ac m st)
   | OTerm c tk m st =>
-    GReturn S c (Build_gsm S (match tk with Some p => p | None => tok end) (start m) true m st)
-  | OFall m st => GFall S (Build_gsm S tok s f m st)
+    GReturn S c (Build_gsm S (match tk with Some p => p | None => tok end) (start m) true
+                           (c =? lexTryAgain) m st)
+  | OFall m st => GFall S (Build_gsm S tok s f ac m st)
   end.
 
 Lemma take_pairs_length : forall n m i ac, take_pairs n m i = Some ac -> length ac = n.
@@ -63,12 +68,12 @@ Qed.
 (* L8(c): the raw action loop is the pure specification *)
 Lemma run_actions_spec : forall modes m n i ac,
   take_pairs n m i = Some ac ->
-  forall fuel tok s md st, (n < fuel)%nat ->
+  forall fuel tok s cn a md st, (n < fuel)%nat ->
   run_actions modes fuel m i (i + 2 * Z.of_nat n)
-    {| sm_token := tok; sm_state := s; sm_mode := md; sm_stack := st |}
-  = sm_out tok s (act_spec (length modes) ac md st).
+    {| sm_token := tok; sm_state := s; sm_consumed := cn; sm_accum := a; sm_mode := md; sm_stack := st |}
+  = sm_out tok s cn a (act_spec (length modes) ac md st).
 Proof.
-  intros modes m. induction n as [|n IH]; intros i ac Htp fuel tok s md st Hf.
+  intros modes m. induction n as [|n IH]; intros i ac Htp fuel tok s cn a md st Hf.
   - cbn [take_pairs] in Htp. injection Htp as <-.
     destruct fuel as [|f]; [lia|]. cbn [run_actions act_spec sm_out].
     destruct (i <? i + 2 * Z.of_nat 0) eqn:E; [lia|reflexivity].
@@ -79,7 +84,7 @@ Proof.
     injection Htp as <-.
     destruct fuel as [|f]; [lia|]. cbn [run_actions].
     destruct (i <? i + 2 * Z.of_nat (S n)) eqn:E; [|lia].
-    rewrite Ea, Eb. cbn [act_spec sm_token sm_state sm_mode sm_stack].
+    rewrite Ea, Eb. cbn [act_spec sm_token sm_state sm_consumed sm_accum sm_mode sm_stack].
     replace (i + 2 * Z.of_nat (S n)) with (i + 2 + 2 * Z.of_nat n) by lia.
     destruct (ty =? 1) eqn:T1.
     { destruct ((p <? 0) || (Z.of_nat (length modes) <=? p)) eqn:C; [reflexivity|].
@@ -92,13 +97,13 @@ Proof.
     apply IH; [exact Er|lia].
 Qed.
 
-Lemma g_actions_spec : forall (S : Type) (start : nat -> S) (nmodes : nat) acts tok s f md st,
-  g_actions S start nmodes acts (Build_gsm S tok s f md st)
-  = g_out S start tok s f (act_spec nmodes acts md st).
+Lemma g_actions_spec : forall (S : Type) (start : nat -> S) (nmodes : nat) acts tok s f a md st,
+  g_actions S start nmodes acts (Build_gsm S tok s f a md st)
+  = g_out S start tok s f a (act_spec nmodes acts md st).
 Proof.
-  intros S start nmodes. induction acts as [|[ty p] rest IH]; intros tok s f md st.
+  intros S start nmodes. induction acts as [|[ty p] rest IH]; intros tok s f a md st.
   - reflexivity.
-  - cbn [g_actions act_spec g_token g_state g_fresh g_mode g_stack].
+  - cbn [g_actions act_spec g_token g_state g_fresh g_accum g_mode g_stack].
     destruct (ty =? 1) eqn:T1.
     { destruct ((p <? 0) || (Z.of_nat nmodes <=? p)) eqn:C; [reflexivity|]. apply IH. }
     destruct (ty =? 2) eqn:T2.
@@ -209,11 +214,10 @@ Qed.
 
 Lemma progress_row0 : forall mode v,
   mode_progress_ok mode = true -> decode_row mode 0 = Some v ->
-  v_acts v = [] /\ v_flag v = false.
+  v_flag v = false.
 Proof.
   intros mode v H Hdec. unfold mode_progress_ok in H. cbv zeta in H.
   apply andb_true_iff in H. destruct H as [_ H]. rewrite Hdec in H.
-  destruct (v_acts v); [|discriminate]. split; [reflexivity|].
   destruct (v_flag v); [discriminate|reflexivity].
 Qed.
 
@@ -226,24 +230,30 @@ Qed.
 
 (* ---------- PushRune, both machines, as functions of the decoded row ---------- *)
 
-Lemma push_rune_eq : forall modes md mode s v tok st r,
+Lemma push_rune_eq : forall modes md mode s v tok cn a st r,
   nth_error modes md = Some mode -> decode_row mode s = Some v ->
   sorted_disjoint (-1) (v_trans v) = true ->
-  push_rune modes {| sm_token := tok; sm_state := s; sm_mode := md; sm_stack := st |} r =
+  push_rune modes {| sm_token := tok; sm_state := s; sm_consumed := cn; sm_accum := a;
+                     sm_mode := md; sm_stack := st |} r =
   match (if v_flag v then None else lookup Z (v_trans v) r) with
-  | Some t => Some (lexConsume, {| sm_token := tok; sm_state := t; sm_mode := md; sm_stack := st |})
+  | Some t => Some (lexConsume, {| sm_token := tok; sm_state := t; sm_consumed := true; sm_accum := a;
+                                   sm_mode := md; sm_stack := st |})
   | None =>
-    match sm_out tok s (act_spec (length modes) (v_acts v) md st) with
+    match (if negb cn
+           then AFall {| sm_token := tok; sm_state := s; sm_consumed := cn; sm_accum := a;
+                         sm_mode := md; sm_stack := st |}
+           else sm_out tok s cn a (act_spec (length modes) (v_acts v) md st)) with
     | ACrash => None
     | AReturn c l' => Some (c, l')
-    | AFall l' => if (sm_state l' =? 0) && (r =? -1) then Some (lexEOF, l') else Some (lexError, l')
+    | AFall l' => if negb (sm_consumed l') && (r =? -1) && negb (sm_accum l')
+                  then Some (lexEOF, l') else Some (lexError, l')
     end
   end.
 Proof.
-  intros modes md mode s v tok st r Emode Hdec Hsorted.
+  intros modes md mode s v tok cn a st r Emode Hdec Hsorted.
   destruct (decode_row_inv mode s v Hdec) as
     [i0 [count [flags [goto_n [E0 [E1 [E2 [E3 [Hg [Hc [Hf [Ht Hp]]]]]]]]]]]].
-  unfold push_rune. cbn [sm_mode sm_state sm_token sm_stack].
+  unfold push_rune. cbn [sm_mode sm_state sm_token sm_consumed sm_accum sm_stack].
   rewrite Emode, E0, E1. cbv zeta.
   replace (i0 + 1 + 1) with (i0 + 2) by lia. rewrite E2, E3.
   replace (i0 + 1 + 2) with (i0 + 3) by lia.
@@ -257,21 +267,23 @@ Proof.
   - reflexivity.
 Qed.
 
-Lemma g_push_rune_eq : forall (S : Type) (A : nat -> S -> option (view S)) start nmodes tok s f md st v r,
+Lemma g_push_rune_eq : forall (S : Type) (A : nat -> S -> option (view S)) start nmodes tok s f a md st v r,
   A md s = Some v ->
-  g_push_rune S A start nmodes (Build_gsm S tok s f md st) r =
+  g_push_rune S A start nmodes (Build_gsm S tok s f a md st) r =
   match (if v_flag v then None else lookup S (v_trans v) r) with
-  | Some t => Some (lexConsume, Build_gsm S tok t false md st)
+  | Some t => Some (lexConsume, Build_gsm S tok t false a md st)
   | None =>
-    match g_out S start tok s f (act_spec nmodes (v_acts v) md st) with
+    match (if f then GFall S (Build_gsm S tok s f a md st)
+           else g_out S start tok s f a (act_spec nmodes (v_acts v) md st)) with
     | GCrash _ => None
     | GReturn _ c l' => Some (c, l')
-    | GFall _ l' => if g_fresh l' && (r =? -1) then Some (lexEOF, l') else Some (lexError, l')
+    | GFall _ l' => if g_fresh l' && (r =? -1) && negb (g_accum l')
+                    then Some (lexEOF, l') else Some (lexError, l')
     end
   end.
 Proof.
-  intros S A start nmodes tok s f md st v r HA.
-  unfold g_push_rune. cbn [g_mode g_state g_token g_stack]. rewrite HA.
+  intros S A start nmodes tok s f a md st v r HA.
+  unfold g_push_rune. cbn [g_mode g_state g_token g_fresh g_accum g_stack]. rewrite HA.
   rewrite g_actions_spec. reflexivity.
 Qed.
 
@@ -279,10 +291,11 @@ Qed.
 
 Definition rel_sm (l : sm) (gl : gsm Z) : Prop :=
   g_token gl = sm_token l /\ g_state gl = sm_state l /\ g_mode gl = sm_mode l /\
-  g_stack gl = sm_stack l /\ g_fresh gl = (sm_state l =? 0).
+  g_stack gl = sm_stack l /\ g_fresh gl = negb (sm_consumed l) /\ g_accum gl = sm_accum l.
 
 Ltac rel_tac :=
-  unfold rel_sm; cbn [sm_token sm_state sm_mode sm_stack g_token g_state g_fresh g_mode g_stack];
+  unfold rel_sm;
+  cbn [sm_token sm_state sm_consumed sm_accum sm_mode sm_stack g_token g_state g_fresh g_accum g_mode g_stack];
   repeat split; try reflexivity.
 
 Lemma nstates_pos : forall modes md,
@@ -299,7 +312,7 @@ Qed.
    one) without a terminal action leaves the old state number in the new mode.
    simplelexer calls Reset after every error, which restores it. *)
 Theorem push_rune_decode : forall modes l gl r,
-  modes_wf modes = true -> forallb mode_progress_ok modes = true ->
+  modes_wf modes = true ->
   rel_sm l gl -> (sm_mode l < length modes)%nat ->
   0 <= sm_state l < mode_nstates (nth (sm_mode l) modes []) ->
   Forall (fun m => (m < length modes)%nat) (sm_stack l) ->
@@ -312,44 +325,52 @@ Theorem push_rune_decode : forall modes l gl r,
   | _, _ => False
   end.
 Proof.
-  intros modes l gl r Hwf Hprog Hrel Hmd Hs Hst.
-  destruct l as [tok s md st]. destruct gl as [gtok gs gf gmd gst].
-  unfold rel_sm in Hrel. cbn [sm_token sm_state sm_mode sm_stack g_token g_state g_fresh g_mode g_stack] in *.
-  destruct Hrel as (-> & -> & -> & -> & ->).
+  intros modes l gl r Hwf Hrel Hmd Hs Hst.
+  destruct l as [tok s cn a md st]. destruct gl as [gtok gs gf ga gmd gst].
+  unfold rel_sm in Hrel.
+  cbn [sm_token sm_state sm_consumed sm_accum sm_mode sm_stack
+       g_token g_state g_fresh g_accum g_mode g_stack] in *.
+  destruct Hrel as (-> & -> & -> & -> & -> & ->).
   destruct (nth_error modes md) as [mode|] eqn:Emode; [|apply nth_error_None in Emode; lia].
+  pose proof Hs as Hs_orig.
   rewrite (nth_error_nth _ _ _ Emode) in Hs.
   pose proof (modes_wf_mode _ _ _ Hwf Emode) as Hmwf.
   destruct (mode_wf_row _ _ _ Hmwf Hs) as [v [Hdec Hrow]].
   destruct Hrow as [Hsorted Htrans Hacts].
-  pose proof (progress_row mode s v (progress_mode _ _ _ Hprog Emode) Hs Hdec) as Hnz.
-  rewrite (push_rune_eq modes md mode s v tok st r Emode Hdec Hsorted).
-  rewrite (g_push_rune_eq Z (table_auto modes) (fun _ => 0) (length modes) tok s (s =? 0) md st v r)
+  rewrite (push_rune_eq modes md mode s v tok cn a st r Emode Hdec Hsorted).
+  rewrite (g_push_rune_eq Z (table_auto modes) (fun _ => 0) (length modes) tok s (negb cn) a md st v r)
     by (unfold table_auto; rewrite Emode; exact Hdec).
   destruct (if v_flag v then None else lookup Z (v_trans v) r) as [t|] eqn:Elk.
   - (* consume *)
     assert (Hlk : lookup Z (v_trans v) r = Some t) by (destruct (v_flag v); [discriminate|exact Elk]).
     destruct (lookup_some_in Z _ _ _ Hlk) as [lo [hi [Hin _]]].
-    specialize (Hnz _ _ _ Hin). destruct (Htrans _ _ _ Hin) as [_ Ht].
-    cbn [sm_token sm_state sm_mode sm_stack].
+    destruct (Htrans _ _ _ Hin) as [_ Ht].
+    cbn [sm_token sm_state sm_consumed sm_accum sm_mode sm_stack].
     rewrite (nth_error_nth _ _ _ Emode).
-    split; [reflexivity|]. split; [rel_tac; lia|].
+    split; [reflexivity|]. split; [rel_tac|].
     split; [assumption|]. split; [assumption|]. intros _. exact Ht.
-  - pose proof (act_spec_ok (length modes) (v_acts v) md st Hacts Hmd Hst) as Hok.
+  - destruct (negb cn) eqn:Ecn.
+    { (* token boundary: the actions are skipped *)
+      cbn [sm_consumed sm_accum g_fresh g_accum]. rewrite Ecn.
+      destruct (true && (r =? -1) && negb a) eqn:Eeof;
+        cbn [sm_token sm_state sm_consumed sm_accum sm_mode sm_stack].
+      - split; [reflexivity|]. split; [rel_tac; rewrite Ecn; reflexivity|].
+        split; [assumption|]. split; [assumption|]. intros _. exact Hs_orig.
+      - split; [reflexivity|]. split; [rel_tac; rewrite Ecn; reflexivity|].
+        split; [assumption|]. split; [assumption|]. intros _. exact Hs_orig. }
+    pose proof (act_spec_ok (length modes) (v_acts v) md st Hacts Hmd Hst) as Hok.
     destruct (act_spec (length modes) (v_acts v) md st) as [|m' st'|c tk m' st'|m' st'];
       cbn [sm_out g_out]; [contradiction| | |]; destruct Hok as [Hm' Hst'].
-    + cbn [sm_token sm_state sm_mode sm_stack].
-      split; [reflexivity|]. split; [rel_tac|].
+    + cbn [sm_token sm_state sm_consumed sm_accum sm_mode sm_stack].
+      split; [reflexivity|]. split; [rel_tac; rewrite Ecn; reflexivity|].
       split; [assumption|]. split; [assumption|]. intros Hc. exfalso. apply Hc. reflexivity.
-    + cbn [sm_token sm_state sm_mode sm_stack].
+    + cbn [sm_token sm_state sm_consumed sm_accum sm_mode sm_stack].
       pose proof (nstates_pos modes m' Hwf Hm').
       split; [reflexivity|]. split; [rel_tac|].
       split; [assumption|]. split; [assumption|]. intros _. lia.
-    + cbn [sm_state g_fresh].
-      destruct ((s =? 0) && (r =? -1)) eqn:Eeof; cbn [sm_token sm_state sm_mode sm_stack].
-      * pose proof (nstates_pos modes m' Hwf Hm').
-        split; [reflexivity|]. split; [rel_tac|].
-        split; [assumption|]. split; [assumption|]. intros _. lia.
-      * split; [reflexivity|]. split; [rel_tac|].
-        split; [assumption|]. split; [assumption|]. intros Hc. exfalso. apply Hc. reflexivity.
+    + cbn [sm_consumed sm_accum g_fresh g_accum]. rewrite Ecn. cbn [andb].
+      cbn [sm_token sm_state sm_consumed sm_accum sm_mode sm_stack].
+      split; [reflexivity|]. split; [rel_tac; rewrite Ecn; reflexivity|].
+      split; [assumption|]. split; [assumption|]. intros Hc. exfalso. apply Hc. reflexivity.
 Qed.
 Print Assumptions push_rune_decode.
